@@ -22,6 +22,10 @@ var (
 	c17Lex = lexer.MustSimple([]lexer.SimpleRule{
 		{Name: "Tok", Pattern: `[^\s;]+`}, {Name: "Semi", Pattern: `;`}, {Name: "WS", Pattern: `\s+`},
 	})
+	// a number token that may carry a trailing blank (strconv does not accept it)
+	c17PadLex = lexer.MustSimple([]lexer.SimpleRule{
+		{Name: "Tok", Pattern: `[^\s;]+[ \t]?`}, {Name: "Semi", Pattern: `;`}, {Name: "WS", Pattern: `\s+`},
+	})
 	c17SignLex = lexer.MustSimple([]lexer.SimpleRule{
 		{Name: "Sign", Pattern: `[-+]`}, {Name: "Tok", Pattern: `[^\s;+-][^\s;]*`}, {Name: "Semi", Pattern: `;`}, {Name: "WS", Pattern: `\s+`},
 	})
@@ -55,6 +59,11 @@ type numNested[T any] struct {
 }
 type numChild struct {
 	W string `@Tok`
+}
+
+// numTwice: two separate captures into one scalar field; each is converted on its own, the later one stays
+type numTwice[T any] struct {
+	V T `@Tok ";" @Tok`
 }
 
 type numOuter[T any] struct {
@@ -118,6 +127,8 @@ func mkNumKind[T any](name, class string, bits int) numKind {
 		pAfter  *participle.Parser[numAfter[T]]
 		pSigPtr *participle.Parser[numSignedPtr[T]]
 		pNested *participle.Parser[numNested[T]]
+		pTwice  *participle.Parser[numTwice[T]]
+		pPadded *participle.Parser[numScalar[T]]
 	)
 	opts := []participle.Option{participle.Lexer(c17Lex), participle.Elide("WS")}
 	return numKind{name: name, class: class, bits: bits, run: func(shape, input string) (res numRes) {
@@ -182,6 +193,24 @@ func mkNumKind[T any](name, class string, bits int) numKind {
 					pNested = participle.MustBuild[numNested[T]](append([]participle.Option{participle.UseLookahead(3)}, opts...)...)
 				}
 				ast, err := pNested.ParseString("f", input)
+				res.err = err
+				if err == nil {
+					res.vals = fieldVals(reflect.ValueOf(ast).Elem().Field(0))
+				}
+			case "twice":
+				if pTwice == nil {
+					pTwice = participle.MustBuild[numTwice[T]](opts...)
+				}
+				ast, err := pTwice.ParseString("f", input)
+				res.err = err
+				if err == nil {
+					res.vals = fieldVals(reflect.ValueOf(ast).Elem().Field(0))
+				}
+			case "padded":
+				if pPadded == nil {
+					pPadded = participle.MustBuild[numScalar[T]](participle.Lexer(c17PadLex), participle.Elide("WS"))
+				}
+				ast, err := pPadded.ParseString("f", input)
 				res.err = err
 				if err == nil {
 					res.vals = fieldVals(reflect.ValueOf(ast).Elem().Field(0))
@@ -262,6 +291,10 @@ func (c *c17Case) input() string {
 		return c.Texts[0] + c.Spaces + c.Texts[1]
 	case "nested":
 		return c.Texts[0] + " x"
+	case "twice":
+		return c.Texts[0] + c.Spaces + ";" + c.Spaces + c.Texts[1]
+	case "padded":
+		return c.Texts[0] // the text ends in a blank that belongs to the token
 	case "outer":
 		return c.Texts[0] + c.Spaces + ";"
 	case "after":
@@ -344,6 +377,9 @@ func checkC17(c *c17Case, r *vstat.Run) outcome {
 	if c.Shape == "signed" || c.Shape == "signedptr" {
 		def = c17SignLex
 	}
+	if c.Shape == "padded" {
+		def = c17PadLex
+	}
 	lr := lexAll(def, "f", input)
 	var toks []lexer.Token
 	for _, t := range lr.toks {
@@ -383,6 +419,8 @@ func checkC17(c *c17Case, r *vstat.Run) outcome {
 		}
 	case "signed", "signedptr":
 		wants = []numWant{numExpect(k, c.Texts[0]+c.Texts[1])}
+	case "twice":
+		wants = []numWant{numExpect(k, c.Texts[0]), numExpect(k, c.Texts[1])}
 	default:
 		wants = []numWant{numExpect(k, c.Texts[0])}
 	}
@@ -418,6 +456,15 @@ func checkC17(c *c17Case, r *vstat.Run) outcome {
 		}
 		return outcome{}
 	}
+	if allOK && c.Shape == "twice" {
+		if res.err != nil {
+			return violationf("spurious-error", "%s: strconv accepts both texts but Parse failed: %v", desc, res.err)
+		}
+		if len(res.vals) != 1 || !numEqual(k, res.vals[0], wants[1]) {
+			return violationf("value", "%s: two captures into one scalar field: it holds %s, want the value of the later capture (strconv gives int=%d uint=%d float=%v)", desc, fmtVals(res.vals), wants[1].i, wants[1].u, wants[1].f)
+		}
+		return outcome{}
+	}
 	if allOK {
 		if res.err != nil {
 			return violationf("spurious-error", "%s: strconv accepts the text but Parse failed: %v", desc, res.err)
@@ -441,8 +488,8 @@ func checkC17(c *c17Case, r *vstat.Run) outcome {
 		return violationf("error-type", "%s: error %v (%T) is not a participle.Error", desc, res.err, res.err)
 	}
 	first := toks[0]
-	if c.Shape == "slice" {
-		first = toks[firstBad] // @Tok+ : every element is a capture of its own, located at the failing element
+	if c.Shape == "slice" || c.Shape == "twice" {
+		first = toks[firstBad] // every element is a capture of its own, located at the failing one
 	}
 	if perr.Position() != first.Pos {
 		sig := "error-pos"
@@ -530,7 +577,7 @@ func genNumText(t *rapid.T) (string, bool) {
 func TestC17(t *testing.T) {
 	runProp(t, "C17", c17Rule, func(t *rapid.T, r *vstat.Run) {
 		k := numKinds[rapid.IntRange(0, len(numKinds)-1).Draw(t, "kind")]
-		c := &c17Case{Kind: k.name, Shape: rapid.SampledFrom([]string{"scalar", "scalar", "ptr", "slice", "slicecap", "signed", "signedptr", "nested", "outer", "after"}).Draw(t, "shape")}
+		c := &c17Case{Kind: k.name, Shape: rapid.SampledFrom([]string{"scalar", "scalar", "ptr", "slice", "slicecap", "signed", "signedptr", "nested", "twice", "padded", "outer", "after"}).Draw(t, "shape")}
 		nt := false
 		switch c.Shape {
 		case "slice", "slicecap":
@@ -540,6 +587,16 @@ func TestC17(t *testing.T) {
 				c.Texts = append(c.Texts, s)
 				nt = nt || b
 			}
+		case "twice":
+			s1, b1 := genNumText(t)
+			s2, b2 := genNumText(t)
+			nt = b1 || b2
+			c.Texts = []string{s1, s2}
+			c.Spaces = rapid.SampledFrom([]string{"", "", " "}).Draw(t, "sp")
+		case "padded":
+			s, b := genNumText(t)
+			nt = b
+			c.Texts = []string{s + rapid.SampledFrom([]string{" ", "\t", " "}).Draw(t, "pad")}
 		case "signed", "signedptr":
 			s, b := genNumText(t)
 			nt = b
